@@ -70,7 +70,6 @@ func (d *dateObject) Value() Value {
 	return d.value
 }
 
-// FIXME A date should only be in the range of -100,000,000 to +100,000,000 (1970): 15.9.1.1.
 func (d *dateObject) SetNaN() {
 	d.time = Time.Time{}
 	d.epoch = -1
@@ -101,6 +100,10 @@ func (d *dateObject) Set(epoch float64) {
 	}
 }
 
+// maxTimeValue is the largest magnitude of a time value, 100,000,000 days
+// either side of 1970 (15.9.1.1, 15.9.1.14 TimeClip).
+const maxTimeValue = 8.64e15
+
 func epochToInteger(value float64) int64 {
 	if value > 0 {
 		return int64(math.Floor(value))
@@ -110,7 +113,7 @@ func epochToInteger(value float64) int64 {
 
 func epochToTime(value float64) (Time.Time, error) {
 	epochWithMilli := value
-	if math.IsNaN(epochWithMilli) || math.IsInf(epochWithMilli, 0) {
+	if math.IsNaN(epochWithMilli) || math.IsInf(epochWithMilli, 0) || math.Abs(epochWithMilli) > maxTimeValue {
 		return Time.Time{}, fmt.Errorf("invalid time %v", value)
 	}
 
@@ -218,7 +221,11 @@ func newDateTime(argumentList []Value, location *Time.Location) float64 {
 		}
 
 		time := Time.Date(int(year), dateToGoMonth(int(month)), int(day), int(hour), int(minute), int(second), int(millisecond)*1000*1000, location)
-		return timeToEpoch(time)
+		epoch := timeToEpoch(time)
+		if math.Abs(epoch) > maxTimeValue {
+			return math.NaN()
+		}
+		return epoch
 	}
 }
 
